@@ -143,6 +143,10 @@ func c02Match(m map[string]any, full bool) {
 // menu), level 1 = probing layer (reduced menu in the quick tier).
 var c02Three bool
 
+// c02Lean: thorough tier, set when the first further layer has two
+// documents: the probing layer then uses the reduced menu (as in quick).
+var c02Lean bool
+
 func c02Data(level int) map[string]any {
 	m := map[string]any{}
 	if c02Three {
@@ -166,7 +170,7 @@ func c02Data(level int) map[string]any {
 		}
 		return m
 	}
-	if level == 0 || vTier() > 0 {
+	if level == 0 || (vTier() > 0 && !c02Lean) {
 		n := 4
 		if vTier() > 0 {
 			n = 5
@@ -181,7 +185,7 @@ func c02Data(level int) map[string]any {
 		case 4:
 			m["a"] = map[string]any{}
 		}
-		if vTier() > 0 && ndChoice(2) == 1 {
+		if vTier() > 0 && level == 0 && ndChoice(2) == 1 {
 			m["b"] = 6
 		}
 		c02Match(m, true)
@@ -208,6 +212,7 @@ func HarnessC02_stream() {
 		k = 1 + ndChoice(3)
 	}
 	c02Three = false
+	c02Lean = false
 	if vTier() == 0 && ndChoice(4) == 0 {
 		// quick: also three base documents, with the reduced menus throughout
 		k = 3
@@ -231,6 +236,10 @@ func HarnessC02_stream() {
 		n := 1
 		if l == 0 {
 			n = 1 + ndChoice(2)
+			if k == 3 {
+				n = 1 // three base documents: one document per layer
+			}
+			c02Lean = n == 2
 		}
 		var cur []*Document
 		datas := []any{}
